@@ -3,6 +3,7 @@ package sched
 import (
 	"fmt"
 	"math/rand"
+	"runtime"
 	"strings"
 	"sync"
 	"sync/atomic"
@@ -301,6 +302,100 @@ func FailSubLoop(seed int64, prog Program, n int) *RunResult {
 	out.Callbacks = int(atomic.LoadInt32(&ran))
 	if o := atomic.LoadInt32(&overlaps); o > 0 {
 		viol("C01", "group-overlap", fmt.Sprintf("%d times a callback of group \"grp\" started while another one was executing (serve cycles alternating between failing and working subscriptions)", o))
+	}
+	return out
+}
+
+// ContendLoop lets several goroutines submit short callbacks of the same few worker groups as fast as
+// they can, with no hook installed (nothing slows the submitters down between their steps): the groups go
+// idle and busy again all the time, and submissions race for the moment a group has no work item.
+func ContendLoop(seed int64, prog Program, n int) *RunResult {
+	out := &RunResult{}
+	res.VerifHook = nil
+	s := res.NewService("test")
+	s.SetLogger(nil)
+	s.SetWorkerCount(prog.Workers)
+	groups := []string{"grp.a", "grp.b", "test.c.1"}
+	inside := make([]int32, len(groups))
+	var overlaps, ran, submitted int32
+	body := func(g int) {
+		if atomic.AddInt32(&inside[g], 1) > 1 {
+			atomic.AddInt32(&overlaps, 1)
+		}
+		k := atomic.AddInt32(&ran, 1)
+		// stay inside for a few microseconds (longer than a submission takes), sometimes yielding
+		for t0 := time.Now(); time.Since(t0) < 25*time.Microsecond; {
+		}
+		if k%3 == 0 {
+			runtime.Gosched()
+		}
+		atomic.AddInt32(&inside[g], -1)
+	}
+	s.Handle("a.$id", res.GetResource(func(r res.GetRequest) { body(0); r.NotFound() }), res.Group("grp.a"))
+	s.Handle("b.$id", res.GetResource(func(r res.GetRequest) { body(1); r.NotFound() }), res.Group("grp.b"))
+	s.Handle("c.$id", res.GetResource(func(r res.GetRequest) { body(2); r.NotFound() }))
+	conn := rconn.New(nil)
+	served := make(chan struct{})
+	s.SetOnServe(func(*res.Service) { close(served) })
+	done := make(chan error, 1)
+	go func() { done <- s.Serve(conn) }()
+	select {
+	case <-served:
+	case <-time.After(3 * time.Second):
+		out.Violations = append(out.Violations, Violation{Property: "C03", Kind: "serve-not-started", Text: "Serve did not start", Sig: map[string]string{"kind": "serve-not-started", "engine": "sched"}})
+		return out
+	}
+	// rounds: the groups are idle, then all submitters are let go at the same instant
+	submit := func(p, i int) {
+		g := (i + p/2) % len(groups)
+		atomic.AddInt32(&submitted, 1)
+		switch (i + p) % 3 {
+		case 0:
+			s.WithGroup(groups[g], func(*res.Service) { body(g) })
+		case 1:
+			s.With([]string{"test.a.1", "test.b.2", "test.c.1"}[g], func(res.Resource) { body(g) })
+		default:
+			conn.Deliver([]string{"get.test.a.7", "get.test.b.7", "get.test.c.1"}[g], "inbox.x", nil)
+		}
+	}
+	var wg sync.WaitGroup
+	const submitters = 6
+	for i := 0; i < n/8; i++ {
+		for atomic.LoadInt32(&ran) < atomic.LoadInt32(&submitted) {
+			runtime.Gosched()
+		}
+		start := make(chan struct{})
+		for p := 0; p < submitters; p++ {
+			wg.Add(1)
+			go func(p int) {
+				defer wg.Done()
+				<-start
+				submit(p, i)
+				if (i+p)%4 == 0 {
+					submit(p, i+1)
+				}
+			}(p)
+		}
+		close(start)
+		wg.Wait()
+	}
+	wg.Wait()
+	deadline := time.Now().Add(5 * time.Second)
+	for atomic.LoadInt32(&ran) < atomic.LoadInt32(&submitted) && time.Now().Before(deadline) {
+		time.Sleep(time.Millisecond)
+	}
+	if r, sub := atomic.LoadInt32(&ran), atomic.LoadInt32(&submitted); r != sub {
+		out.Violations = append(out.Violations, Violation{Property: "C02", Kind: "lost", Text: fmt.Sprintf("%d callbacks were submitted to a started service that is not shutting down, %d ran", sub, r), Sig: map[string]string{"kind": "lost", "engine": "sched"}})
+	}
+	s.Shutdown()
+	select {
+	case <-done:
+	case <-time.After(3 * time.Second):
+	}
+	out.Callbacks = int(atomic.LoadInt32(&ran))
+	out.Steps = int(submitted)
+	if o := atomic.LoadInt32(&overlaps); o > 0 {
+		out.Violations = append(out.Violations, Violation{Property: "C01", Kind: "group-overlap", Text: fmt.Sprintf("%d times a callback started while another callback of its worker group was executing (4 goroutines submitting to 3 groups that keep going idle)", o), Sig: map[string]string{"kind": "group-overlap", "engine": "sched", "group": "contended"}})
 	}
 	return out
 }
